@@ -1,17 +1,18 @@
 """C03 - a container used only through its API is never internally damaged."""
 from .. import engine
-from ..rules import sizes, unlink
+from ..rules import sizes, unlink, splitcommit
 
 
 def tu_check(tu):
     s = sizes.c_facts(tu)
     u = unlink.c_rules(tu)
-    return dict(sizes=s, unlink=u)
+    sc = splitcommit.analyse_tu(tu)
+    return dict(sizes=s, unlink=u, split=sc)
 
 
 def run(tier="quick", seed=0, use_cache=True):
     res = engine.Result("C03")
-    res.rules = ["SIZE-WIRING", "SPLIT-POINT", "UNLINK-STATUS", "PY-UNLINK-STATUS"]
+    res.rules = ["SIZE-WIRING", "SPLIT-POINT", "UNLINK-STATUS", "PY-UNLINK-STATUS", "SPLIT-COMMIT"]
     res.explanation = (
         "Structural necessary conditions of the tree invariants, extracted "
         "from the code of both implementations and compared with the "
@@ -24,7 +25,12 @@ def run(tier="quick", seed=0, use_cache=True):
         "of the delete path - the 'first bucket went away' status is "
         "consumed (reset) exactly where the predecessor leaf is relinked, so "
         "that no ancestor unlinks a second leaf, in _BTree_set and "
-        "_Tree._del. The invariants after every step of every history (leaf "
+        "_Tree._del; (3) SPLIT-COMMIT - once bucket_split / BTree_split has "
+        "succeeded (the new sibling is linked behind the split node) no "
+        "return is reachable in the caller before the sibling is stored as a "
+        "child and the parent's len is increased, and the split functions "
+        "themselves have no failure exit after their first store into the "
+        "node being split (accepted idiom: the final PER_CHANGED result). The invariants after every step of every history (leaf "
         "chain = descent order, no empty node, keys within separator ranges) "
         "depend on reachable shapes and are not decided by static analysis.")
     res.assumptions = ["necessary conditions only; _check()/check() success over histories is not decided"]
@@ -32,9 +38,14 @@ def run(tier="quick", seed=0, use_cache=True):
     for fam, r in sorted(out.items()):
         res.findings.extend(r["sizes"]["findings"], fam)
         res.findings.extend(r["unlink"]["findings"], fam)
+        res.findings.extend(r["split"]["findings"], fam)
     res.floor("translation units", len(out), 22)
     res.count("SIZE-WIRING", sum(r["sizes"]["n"] for r in out.values()))
     res.count("UNLINK-STATUS", sum(r["unlink"]["n"] for r in out.values()))
+    res.floor("split call sites (OO)", out["OO"]["split"]["stats"]["split_call_sites"], 2)
+    res.floor("commit stores in the split functions (OO)", out["OO"]["split"]["stats"]["split_commit_stores"], 3)
+    res.count("SPLIT-COMMIT", sum(r["split"]["stats"]["split_call_sites"] + r["split"]["stats"]["split_commit_stores"] for r in out.values()))
+    res.extra["split_commit_accepted_idioms"] = out["OO"]["split"]["stats"]["accepted"]
     sizes.py_check(res, out["OO"]["sizes"]["facts"])
     unlink.py_rules(res)
     res.units = {"translation_units": len(out)}
